@@ -218,7 +218,9 @@ impl<'a, R: 'a + Read> CompressionLayerReader<'a, R> {
                 Ok(brotli::Decompressor::new(
                     // Make the Decompressor work only on the compressed block's bytes, no more
                     inner.take(compressed_block_size as u64),
-                    compressed_block_size,
+                    // This is only the size of the working buffer: do not let an
+                    // untrusted size drive the allocation
+                    std::cmp::min(compressed_block_size, UNCOMPRESSED_DATA_SIZE as usize),
                 ))
             }
             None => Err(Error::MissingMetadata),
